@@ -376,7 +376,16 @@ def run_tabs(ctx, shard, tun):
                                   mechanism="tab-unplayable:bar")
                 st, txt = ctx.call(TAB.from_Bar, tracks[0].bars[0], width, t)
             elif what == "track":
-                st, txt = ctx.call(TAB.from_Track, tracks[0], width, t)
+                if rng.random() < 0.3:
+                    # the tuning comes from the track's instrument only; no tuning argument
+                    from mingus.containers.instrument import Instrument
+                    tracks[0].tuning = None
+                    tracks[0].instrument = Instrument()
+                    tracks[0].instrument.tuning = t
+                    w["tuning_via"] = "track.instrument.tuning"
+                    st, txt = ctx.call(TAB.from_Track, tracks[0], width)
+                else:
+                    st, txt = ctx.call(TAB.from_Track, tracks[0], width, t)
             else:
                 c = Composition()
                 c.set_title("t")
